@@ -32,6 +32,7 @@ from concurrent.futures import ThreadPoolExecutor
 from vf import build, tlc, trace
 from vf import run as hrun
 from vf.core import InfraError
+from checks.deferred import Deferred, crash_signal
 
 LEVEL = "model_checking"
 READY = True
@@ -107,36 +108,63 @@ def _sig(f):
     return "PREP:%d:%s" % (f["type"], f["kind"])
 
 
-def _replay_cases(ctx, exe, rd, tag, cases):
-    """write cases, run the replay driver, turn Fail lines into violations; returns number of Fail lines"""
+def _replay_cases(ctx, exe, rd, tag, cases, deferred=None, ids=None, depth=0):
+    """write cases, run the replay driver, turn Fail lines into violations; returns number of Fail lines.
+    The driver runs every case in ONE process: a library that aborts on a case ends it.  That case is located (bisection over prefixes of the list, each in a
+    process of its own), reported with the crash signature, and the cases behind it are run in a new process; `ids` = the indices of `cases` that are run"""
+    ids = list(range(len(cases))) if ids is None else ids
     cf = os.path.join(rd, "cases_%s.txt" % tag)
     of = os.path.join(rd, "out_%s.ndjson" % tag)
-    with open(cf, "w") as fh:
-        for i, e in enumerate(cases):
-            fh.write(_case_line(i, e) + "\n")
-    h = hrun.run(exe, [cf, of], timeout=1500)
+
+    def drive(sub):
+        with open(cf, "w") as fh:
+            for i in sub:
+                fh.write(_case_line(i, cases[i]) + "\n")
+        return hrun.run(exe, [cf, of], timeout=1500)
+    h = drive(ids)
     ev = hrun.read_ndjson(of)
     if h.timed_out:
-        raise InfraError("c10_replay timed out on %s" % tag)
+        if deferred is None:
+            raise InfraError("c10_replay timed out on %s" % tag)
+        deferred.add("c10_replay timed out on %s" % tag)       # a changed library may hang; the Fail lines written so far are still reported
     fails = [e for e in ev if e.get("e") == "Fail"]
-    if h.rc != 0:
+    more = (0, 0)
+    if h.rc != 0 and not h.timed_out:
         last = fails[-1] if fails else {}
         done = [e for e in ev if e.get("e") == "Done"]
         if h.san:
             ctx.violation("PREP:%s:%s" % (last.get("type", "?"), h.san), "sanitizer report in the replay driver (%s):\n%s" % (tag, h.err[:1500]),
                           dict(kind="crash", tag=tag))
         elif not done:
-            raise InfraError("c10_replay died rc=%d on %s: %s" % (h.rc, tag, h.err[-800:]))
+            sg = crash_signal(h.rc)
+            if not sg:
+                raise InfraError("c10_replay died rc=%d on %s: %s" % (h.rc, tag, h.err[-800:]))
+            lo, hi = 1, len(ids)          # the driver dies on ids[:hi]; it does not on ids[:lo - 1]
+            while lo < hi:
+                mid = (lo + hi) // 2
+                if crash_signal(drive(ids[:mid]).rc):
+                    hi = mid
+                else:
+                    lo = mid + 1
+            c = cases[ids[lo - 1]]
+            alone = lo == 1 or bool(crash_signal(drive([ids[lo - 1]]).rc))
+            ctx.violation("PREP:%s:crash" % c["type"], "the library did not return (%s) on option %d, variant %d, X=%s%s: %s" % (
+                sg, c["type"], c["v"], c["X"], "" if alone else " after the %d preceding cases of %s (it returns when run alone)" % (lo - 1, tag), h.err[-600:]),
+                dict(kind="case", case=c) if alone else dict(kind="crash", tag=tag, prefix=lo))
+            if depth < 3 and lo < len(ids):
+                more = _replay_cases(ctx, exe, rd, tag, cases, deferred, ids[lo:], depth + 1)
+            elif lo < len(ids) and deferred is not None:
+                deferred.add("c10_replay: %d cases of %s not run after 4 crashes of the driver" % (len(ids) - lo, tag))
     done = [e for e in ev if e.get("e") == "Done"]
-    if done and done[0]["cases"] != len(cases):
-        raise InfraError("c10_replay read %d of %d cases" % (done[0]["cases"], len(cases)))
+    if done and done[0]["cases"] != len(ids):
+        raise InfraError("c10_replay read %d of %d cases" % (done[0]["cases"], len(ids)))
     if not done and h.rc == 0:
         raise InfraError("c10_replay wrote no Done line")
     for f in fails:
         c = cases[f["id"]]
         ctx.violation(_sig(f), "option %d, variant %d, unit 2^-%d/%d, cell (%d,%d): %s: got %s, exact %s; X=%s" % (
             f["type"], f["v"], f["exp"], f.get("den", 1), f["i"], f["j"], f["what"], f["got"], f["want"], c["X"]), dict(kind="case", case=c, exp=f["exp"], den=f.get("den", 1)))
-    return len(fails), (done[0]["runs"] if done else 0)
+    return len(fails) + more[0], (done[0]["runs"] if done else 0) + more[1]
 
 
 def _nontrivial(e):
@@ -187,7 +215,7 @@ def _cls_replay(ctx, e):
         ctx.cls("replay/K8:dup-cols")
 
 
-def _run_replay(ctx, rd, lib):
+def _run_replay(ctx, rd, lib, deferred=None):
     exe = build.build_harness("c10r", ["c10_replay.c"], lib)
     plan = _plan(ctx, rd)
 
@@ -218,7 +246,7 @@ def _run_replay(ctx, rd, lib):
                     stats["missing"] += 1
             for e in cases[:2]:
                 ctx.sample(dict(direction="replay", **{k: e[k] for k in ("type", "v", "X", "avg", "sp", "p")}), 4)
-            f, n = _replay_cases(ctx, exe, rd, label, cases)
+            f, n = _replay_cases(ctx, exe, rd, label, cases, deferred)
             nfail += f
             nruns += n
             ctx.note("%s: %d cases from TLC (%.0fs), %d library runs, %d failed comparisons" % (label, len(cases), r.wall, n, f))
@@ -269,7 +297,7 @@ def _sig_trace(ev):
 K5_ROWS = (3, 7, 10, 49, 60)
 
 
-def _record(ctx, exe, rd, jobs):
+def _record(ctx, exe, rd, jobs, deferred=None):
     """run the recording driver once per job [path, seed, nmat, mode]; returns one event list per job"""
     res = hrun.run_many(exe, jobs, timeout=1500, workers=6)
     blocks = []
@@ -281,8 +309,10 @@ def _record(ctx, exe, rd, jobs):
             if h.san:
                 ctx.violation("PREP:%s:%s" % (last.get("type", "?"), h.san), "sanitizer report while recording (seed %s, after %s):\n%s" % (j[1], last, h.err[:1500]), rp)
             elif h.timed_out:
-                raise InfraError("c10_trace timed out")
-            elif h.rc < 0 and ev:
+                if deferred is None:
+                    raise InfraError("c10_trace timed out")
+                deferred.add("c10_trace timed out (seed %s, after event %s)" % (j[1], last))      # a changed library may hang; what was recorded is still judged
+            elif (h.rc < 0 and ev) or crash_signal(h.rc):
                 # killed by a signal inside a library call (the driver itself is deterministic and only allocates through the library)
                 ctx.violation("PREP:%s:crash" % last.get("type", "?"), "recording driver killed by signal %d after event %s (seed %s): %s" % (-h.rc, last, j[1], h.err[-600:]), rp)
             else:
@@ -358,7 +388,7 @@ def _vacuity(events, kinds, deg):
         raise InfraError("validate direction vacuous: input classes never recorded: %s" % ", ".join(miss))
 
 
-def _run_validate(ctx, rd, lib, only=None):
+def _run_validate(ctx, rd, lib, only=None, deferred=None):
     """only = (seed, nmat, local matrix id, mode): re-record that run and validate just that matrix (replay of a stored violation)"""
     exe = build.build_harness("c10t", ["c10_trace.c"], lib)
     nproc, nmat, ndeg = (4, 72, 36) if ctx.quick else (12, 420, 240)
@@ -366,14 +396,16 @@ def _run_validate(ctx, rd, lib, only=None):
     jobs.append([os.path.join(rd, "vdeg.ndjson"), ctx.seed + 7, ndeg, "deg"])
     if only:
         jobs = [[os.path.join(rd, "v0.ndjson"), only[0], only[1], only[3]]]
-    blocks = _record(ctx, exe, rd, jobs)
+    blocks = _record(ctx, exe, rd, jobs, deferred)
     if only:
         blocks = [[e for e in ev if e.get("id") == only[2]] for ev in blocks]
     events = [e for b in blocks for e in b]
     kinds = collections.Counter(e["e"] for e in events)
     if not only:
-        _vacuity([e for e in events if e["mode"] == "main"], collections.Counter(e["e"] for e in events if e["mode"] == "main"), False)
-        _vacuity([e for e in events if e["mode"] == "deg"], collections.Counter(e["e"] for e in events if e["mode"] == "deg"), True)
+        # a recording driver that a changed library ended early leaves classes / event kinds empty: settled after the trace validation (end of run())
+        for m_, d_ in (("main", False), ("deg", True)):
+            guard = deferred.guard if deferred is not None else (lambda fn, *a: fn(*a))
+            guard(_vacuity, [e for e in events if e["mode"] == m_], collections.Counter(e["e"] for e in events if e["mode"] == m_), d_)
     elif not events:
         raise InfraError("replay: the recording no longer contains that matrix")
     _check_quantifier(events)
@@ -402,6 +434,9 @@ def _run_validate(ctx, rd, lib, only=None):
     # one TLC run per recording process keeps the traces short; run them in parallel
     def val(i):
         sub = _Sub(ctx)
+        sub.rejected = 0
+        if not blocks[i]:
+            return sub
         sub.rejected = trace.check_trace(sub, "TracePreprocess", "Trace_Preprocess.cfg", "Trace_Preprocess_prop.cfg", blocks[i], on_reject, drop="event",
                                          label="trace_preprocess_%s" % ("deg" if jobs[i][3] == "deg" else i), timeout=1500)
         return sub
@@ -414,7 +449,7 @@ def _run_validate(ctx, rd, lib, only=None):
     ctx.traces(kinds["Reset"])
     ctx.steps["validate"] = dict(matrices=kinds["Reset"], columns=kinds["Col"], degenerate_columns=kinds["DegCol"], events=len(events),
                                  direct_statistic_events=kinds["Stat"], refits=kinds["Again"])
-    if not only:
+    if not only and not deferred:
         _selftests(ctx, blocks, jobs, rejected)
 
 
@@ -523,13 +558,14 @@ def run(ctx):
         "ASan/UBSan build: any sanitizer report during replay or recording is a violation",
     ]
     rd = tlc.rundir()
+    deferred = Deferred(ctx)
     try:
         lib = build.build_lib("san")
         # (M) theorems on the exhaustive small scope, concurrently with the replay direction
         with ThreadPoolExecutor(1) as ex:
             fut = ex.submit(tlc.run, "Preprocess", "MC_Preprocess_quick.cfg" if ctx.quick else "MC_Preprocess_thorough.cfg",
                             workers=2, timeout=1700, coverage=False, xmx="3g")
-            _run_replay(ctx, rd, lib)
+            _run_replay(ctx, rd, lib, deferred)
             r = fut.result()
         ctx.add_tlc(r, "mc_preprocess")
         if not r.ok:
@@ -546,13 +582,14 @@ def run(ctx):
                 raise InfraError("Preprocess.tla: invariant %s fails in the model itself (deep shapes, %d states):\n%s" % (r2.violation, r2.distinct, r2.trace_text[:1500]))
             ctx.note("model: theorems hold on %d further cases of shapes 6x1 and 3x2 (residue class %d of 16, %.0fs)" % (r2.distinct, ctx.seed % 16, r2.wall))
         _run_guard(ctx)
-        _run_validate(ctx, rd, lib)
+        _run_validate(ctx, rd, lib, deferred=deferred)
         ctx.cov["rule"] = ("replay: a case is one (matrix, affine image, option) enumerated by TLC and executed through fit/apply-same/apply-new/tensor at each unit; "
                            "distinct key = (option, rows, cols, image, has zero-scale column, has MISSING); non-trivial = MISSING or zero-scale or 2 columns or a "
                            "non-identity image.  validate: a case is one recorded column / tensor / copy / refit / direct-statistic call; key = (event, option, rows class, "
                            "cols class, unit exponent, dyadic?, constant?, has MISSING, large pivot).  classes: one count per recorded matrix (Reset tags) resp. column "
                            "(Col tags) resp. TLC-enumerated replay case (replay/...), a case can carry several class tags")
         ctx.cov["exhaustive"] = not ctx.quick
+        deferred.settle()
     finally:
         shutil.rmtree(rd, ignore_errors=True)
 
